@@ -461,7 +461,11 @@ func (z *zwriter) generate() {
 		classTok = "IN "
 		tags["class"] = "explicit"
 	}
-	lhs := "host" + lp.text
+	pre, post := "host", ""
+	if z.rnd(4) == 0 {
+		pre, post = "", "-h" // the template begins with the iterator (reverse zones: "$GENERATE 1-254 ${0,3,d} PTR ...")
+	}
+	lhs := pre + lp.text + post
 	var rhs string
 	switch tmplType {
 	case 1:
@@ -479,7 +483,7 @@ func (z *zwriter) generate() {
 	for i := start; i <= stop; i += step {
 		lv := genFormat(i+lp.offset, lp.width, lp.base)
 		rv := genFormat(i+rp.offset, rp.width, rp.base)
-		owner := append(model.Name{[]byte("host" + lv)}, z.origin...)
+		owner := append(model.Name{[]byte(pre + lv + post)}, z.origin...)
 		var rec *model.Rec
 		switch tmplType {
 		case 1:
@@ -668,7 +672,9 @@ func c06Zone(w *core.W, j int) {
 	z.body(zone, 2+g.R.IntN(10))
 	text := z.sb.String()
 	// parse
-	zp := dns.NewZoneParser(strings.NewReader(text), cfg.origin, "zones/main.db")
+	// the zone's own file name is relative or absolute (os.DirFS("/") style); relative $INCLUDE names
+	// are looked up next to it either way
+	zp := dns.NewZoneParser(strings.NewReader(text), cfg.origin, []string{"zones/main.db", "/zones/main.db", "zones/./main.db"}[j/2%3])
 	if cfg.defTTL != nil {
 		zp.SetDefaultTTL(*cfg.defTTL)
 	}
